@@ -39,7 +39,7 @@ def oracle(rep, rnd, tier, impl):
     ERRS = S
     faults = ["undefined_zz", "1 / 0", "[1, 2][7]", "not 5", "'abc'[9]", "<<<1 => 2>>>[3]", "error 'ERROR'", "length(1)", "matches('abc', '(')", "split('a b', '[')",
               "def down_zz(n) down_zz(n + 1) + 1; down_zz(0)", "date('x')", "int('q')", "chr(-1)", "sorted([1, 'a', [2]], cmp = 5)", "require no_such_module_zz",
-              "'a' * 2 - []", "delete_at([], 'x')", "s('{undefined_zz}')", "eval('1 +')", "sublist(5, 1)", "[1, 2] !> map_list(5)"]
+              "'a' * 2 - []", "delete_at([], 'x')", "s('{undefined_zz}')", "eval('1 +')", "sublist(5, 1)", "[1, 2] !> map_list(5)", "s('{1 +}')", "s('a{)}b')", "s('{0x}')", "parse('1 +')"]
     for f in faults:
         cases += [
             ("def l = []; def r = do append(l, 1); %s; append(l, 2) catch all 'H' finally append(l, 3) end; [r, l]" % f, "(list (s 72) (list (i 1) (i 3)))"),
@@ -47,6 +47,17 @@ def oracle(rep, rnd, tier, impl):
              "(list (s 72) (list (i 1) (i 3) (i 4)))"),
             ("def l = []; def g() do do append(l, 1); %s; append(l, 2) finally append(l, 3) end; append(l, 9) end; def r = []; for i in [1, 2] do append(r, do g() catch all e_zz 'H' end) end; [r, l]"
              .replace("catch all e_zz 'H'", "catch all 'H'") % f, "(list (list (s 72) (s 72)) (list (i 1) (i 3) (i 1) (i 3)))"),
+            # the protected block in every position a do-block can take: the body of a named function and of a lambda (consisting of one
+            # return statement, or ending in one), of a for and a while loop, the branch of an if
+            ("def l = []; def g() do return do %s end catch all 'H' finally append(l, 3) end; [g(), l]" % f, "(list (s 72) (list (i 3)))"),
+            ("def l = []; def g = fn() do return do %s end finally append(l, 3) end; def r = do g() catch all 'H' end; [r, l]" % f, "(list (s 72) (list (i 3)))"),
+            ("def l = []; def g(x) do return do %s end; catch 'ERROR' 'H' end; [g(1), l]" % f, "(list (s 72) (list))"),
+            ("def l = []; def g(x) do append(l, x); return do %s end catch all 'H' finally append(l, 3) end; [g(1), l]" % f, "(list (s 72) (list (i 1) (i 3)))"),
+            ("def l = []; def g(x) do do %s end catch all 'H' finally append(l, 3) end; [g(1), l]" % f, "(list (s 72) (list (i 3)))"),
+            ("def l = []; def r = []; for i in [1, 2] do append(l, i); %s; append(l, 9) catch all append(r, 'H') finally append(l, 3) end; [r, l]" % f,
+             "(list (list (s 72) (s 72)) (list (i 1) (i 3) (i 2) (i 3)))"),
+            ("def l = []; def r = if TRUE then do append(l, 1); %s catch all 'H' finally append(l, 3) end else 'no'; [r, l]" % f, "(list (s 72) (list (i 1) (i 3)))"),
+            ("def i = 0; def r = []; while i < 2 do i += 1; %s catch all append(r, i) end; r" % f, "(list (i 1) (i 2))"),
         ]
     n = evalcheck.programs_oracle(rep, impl, cases, "scenario")
     I0 = impl.new_interpreter(False, False)
